@@ -61,6 +61,8 @@ pub fn gen(tier: &str, seed: u64) -> Vec<String> {
         ("(defsrc a b)\n(deflayer l0 (switch () (tap-hold 0 20 x y) fallthrough () (tap-hold 0 60 z w) break) b)\n", vec![1, 19, 20, 21, 30, 59, 60, 61, 200]),
         ("(defsrc a b)\n(deflayer l0 (switch ((key-timing 1 lt 100)) x break () y break) a)\n", vec![1, 50, 99, 100, 101, 300]),
         ("(defsrc a b c)\n(deflayer l0 (tap-hold 0 50 x y) (tap-hold 0 80 z w) c)\n", vec![1, 10, 49, 50, 79, 80, 81, 200]),
+        ("(defsrc a b c)\n(deflayer l0 (one-shot-pause-processing 60) (one-shot 300 lsft) c)\n", vec![1, 10, 58, 59, 60, 61, 200, 400]),
+        ("(defsrc a b c)\n(deflayer l0 (multi (one-shot-pause-processing 30) (one-shot 100 lctl)) (one-shot-release 50 lsft) c)\n", vec![1, 10, 29, 30, 31, 99, 100, 101, 300]),
         // outside the kanata-level model: decided by the paired runs alone (PAIR same / differ)
         ("(defcfg concurrent-tap-hold yes chords-v2-min-idle 30)\n(defsrc a b c)\n(deflayer l0 a b c)\n(defchordsv2 (a b) x 50 all-released ())\n", vec![1, 10, 28, 29, 30, 31, 32, 49, 50, 51, 200]),
         ("(defcfg concurrent-tap-hold yes chords-v2-min-idle 5)\n(defsrc c a b)\n(deflayer l0 c a b)\n(defchordsv2 (a b) x 40 first-release () (a c) y 20 all-released ())\n", vec![1, 4, 5, 6, 19, 20, 21, 39, 40, 41, 200]),
